@@ -501,7 +501,7 @@ macro_rules! opt_of {
             const INDEF_OK: bool = $indef;
             type Seed = Option<<$e as Entry>::Seed>;
             type Val<'a> = Option<<$e as Entry>::Val<'a>>;
-            fn seed(g: &mut Gen) -> Self::Seed { if g.chance(4) { None } else { Some(<$e as Entry>::seed(g)) } }
+            fn seed(g: &mut Gen) -> Self::Seed { if g.chance(64) { None } else { Some(<$e as Entry>::seed(g)) } }
             fn view<'a>(s: &'a Self::Seed) -> Self::Val<'a> { s.as_ref().map(|x| <$e as Entry>::view(x)) }
             fn same<'a, 'b>(a: &Self::Val<'a>, b: &Self::Val<'b>) -> bool { match (a, b) { (None, None) => true, (Some(x), Some(y)) => <$e as Entry>::same(x, y), _ => false } }
             fn model<'a>(v: &Self::Val<'a>) -> Option<Item> { match v { None => Some(Item::Null), Some(x) => <$e as Entry>::model(x) } }
@@ -629,6 +629,36 @@ matrix_row!("(u8,String)", ETuple2, false, [MVecTup MDqTup MLlTup MArrTup MBoxTu
 matrix_row!("Bound<i64>", EBound, false, [MVecBnd MDqBnd MLlBnd MArrBnd MBoxBnd MTupBnd MMapBnd MResBnd MBndBnd], opt = MOptBnd);
 matrix_row!("IpAddr", EIpAddr, false, [MVecIp MDqIp MLlIp MArrIp MBoxIp MTupIp MMapIp MResIp MBndIp], opt = MOptIp);
 matrix_row!("bool", EBool, true, [MVecBool MDqBool MLlBool MArrBool MBoxBool MTupBool MMapBool MResBool MBndBool], opt = MOptBool);
+/// `Range<E>` / `RangeInclusive<E>` wrapped in a tuple: the positional-field decoders (`[start, end]`) over any element.
+macro_rules! range_of {
+    ($id:ident, $name:expr, $e:ty) => {
+        pub struct $id;
+        impl Entry for $id {
+            const NAME: &'static str = $name;
+            type Seed = [<$e as Entry>::Seed; 4];
+            type Val<'a> = (std::ops::Range<<$e as Entry>::Val<'a>>, std::ops::RangeInclusive<<$e as Entry>::Val<'a>>);
+            fn seed(g: &mut Gen) -> Self::Seed { [<$e as Entry>::seed(g), <$e as Entry>::seed(g), <$e as Entry>::seed(g), <$e as Entry>::seed(g)] }
+            fn view<'a>(s: &'a Self::Seed) -> Self::Val<'a> { (<$e as Entry>::view(&s[0]) .. <$e as Entry>::view(&s[1]), <$e as Entry>::view(&s[2]) ..= <$e as Entry>::view(&s[3])) }
+            fn same<'a, 'b>(a: &Self::Val<'a>, b: &Self::Val<'b>) -> bool { <$e as Entry>::same(&a.0.start, &b.0.start) && <$e as Entry>::same(&a.0.end, &b.0.end) && <$e as Entry>::same(a.1.start(), b.1.start()) && <$e as Entry>::same(a.1.end(), b.1.end()) }
+            fn model<'a>(v: &Self::Val<'a>) -> Option<Item> { Some(Item::array(vec![Item::array(vec![<$e as Entry>::model(&v.0.start)?, <$e as Entry>::model(&v.0.end)?]), Item::array(vec![<$e as Entry>::model(v.1.start())?, <$e as Entry>::model(v.1.end())?])])) }
+            fn borrows_from<'a>(v: &Self::Val<'a>, input: &'a [u8]) -> bool { <$e as Entry>::borrows_from(&v.0.start, input) && <$e as Entry>::borrows_from(&v.0.end, input) && <$e as Entry>::borrows_from(v.1.start(), input) && <$e as Entry>::borrows_from(v.1.end(), input) }
+        }
+    }
+}
+owned!(EBoxOptU8, "Box<Option<u8>>", Box<Option<u8>>);
+owned!(ECellOptU8, "Cell<Option<u8>>", std::cell::Cell<Option<u8>>);
+range_of!(MRngTok, "(Range<Token>,RangeInclusive<Token>)", ETok);
+range_of!(MRngOptU8, "(Range<Option<u8>>,RangeInclusive<Option<u8>>)", EOptU8);
+range_of!(MRngBoxOpt, "(Range<Box<Option<u8>>>,RangeInclusive<Box<Option<u8>>>)", EBoxOptU8);
+range_of!(MRngCellOpt, "(Range<Cell<Option<u8>>>,RangeInclusive<Cell<Option<u8>>>)", ECellOptU8);
+range_of!(MRngUnit, "(Range<()>,RangeInclusive<()>)", EUnit);
+range_of!(MRngBv, "(Range<ByteVec>,RangeInclusive<ByteVec>)", EByteVec);
+range_of!(MRngRs, "(Range<&str>,RangeInclusive<&str>)", ERefStr);
+range_of!(MRngF, "(Range<f64>,RangeInclusive<f64>)", EF64);
+range_of!(MRngVec, "(Range<Vec<u8>>,RangeInclusive<Vec<u8>>)", EVecU8);
+range_of!(MRngTgd, "(Range<Tagged<0,&str>>,RangeInclusive<Tagged<0,&str>>)", ETagged0Str);
+matrix_row!("Box<Option<u8>>", EBoxOptU8, true, [MVecBo MDqBo MLlBo MArrBo MBoxBo MTupBo MMapBo MResBo MBndBo]);
+
 
 /// Invoke `$mac!(EntryType)` for every hand-written registry entry, collecting the results in a `Vec`.
 #[macro_export]
@@ -663,7 +693,7 @@ macro_rules! for_each_matrix_entry {
     ($mac:ident) => {{
         use $crate::registry::*;
         vec![
-            $mac!(MVecTok), $mac!(MDqTok), $mac!(MLlTok), $mac!(MArrTok), $mac!(MBoxTok), $mac!(MTupTok), $mac!(MMapTok), $mac!(MResTok), $mac!(MBndTok), $mac!(MVecOptU8), $mac!(MDqOptU8), $mac!(MLlOptU8), $mac!(MArrOptU8), $mac!(MBoxOptU8), $mac!(MTupOptU8), $mac!(MMapOptU8), $mac!(MResOptU8), $mac!(MBndOptU8), $mac!(MVecUnit2), $mac!(MDqUnit2), $mac!(MLlUnit2), $mac!(MArrUnit), $mac!(MBoxUnit), $mac!(MTupUnit), $mac!(MMapUnit), $mac!(MResUnit), $mac!(MBndUnit), $mac!(MOptUnit), $mac!(MVecTag), $mac!(MDqTag), $mac!(MLlTag), $mac!(MArrTag), $mac!(MBoxTag), $mac!(MTupTag), $mac!(MMapTag), $mac!(MResTag), $mac!(MBndTag), $mac!(MOptTag), $mac!(MVecTgd), $mac!(MDqTgd), $mac!(MLlTgd), $mac!(MArrTgd), $mac!(MBoxTgd), $mac!(MTupTgd), $mac!(MMapTgd), $mac!(MResTgd), $mac!(MBndTgd), $mac!(MOptTgd), $mac!(MVecBv), $mac!(MDqBv), $mac!(MLlBv), $mac!(MArrBv), $mac!(MBoxBv), $mac!(MTupBv), $mac!(MMapBv), $mac!(MResBv), $mac!(MBndBv), $mac!(MOptBv), $mac!(MVecBs), $mac!(MDqBs), $mac!(MLlBs), $mac!(MArrBs), $mac!(MBoxBs), $mac!(MTupBs), $mac!(MMapBs), $mac!(MResBs), $mac!(MBndBs), $mac!(MOptBs), $mac!(MVecRs), $mac!(MDqRs), $mac!(MLlRs), $mac!(MArrRs), $mac!(MBoxRs), $mac!(MTupRs), $mac!(MMapRs), $mac!(MResRs), $mac!(MBndRs), $mac!(MVecCow), $mac!(MDqCow), $mac!(MLlCow), $mac!(MArrCow), $mac!(MBoxCow), $mac!(MTupCow), $mac!(MMapCow), $mac!(MResCow), $mac!(MBndCow), $mac!(MOptCow), $mac!(MVecF), $mac!(MDqF), $mac!(MLlF), $mac!(MArrF), $mac!(MBoxF), $mac!(MTupF), $mac!(MMapF), $mac!(MResF), $mac!(MBndF), $mac!(MOptF), $mac!(MVecInt), $mac!(MDqInt), $mac!(MLlInt), $mac!(MArrInt), $mac!(MBoxInt), $mac!(MTupInt), $mac!(MMapInt), $mac!(MResInt), $mac!(MBndInt), $mac!(MOptInt), $mac!(MVecVec), $mac!(MDqVec), $mac!(MLlVec), $mac!(MArrVec), $mac!(MBoxVec), $mac!(MTupVec), $mac!(MMapVec), $mac!(MResVec), $mac!(MBndVec), $mac!(MOptVec), $mac!(MVecTup), $mac!(MDqTup), $mac!(MLlTup), $mac!(MArrTup), $mac!(MBoxTup), $mac!(MTupTup), $mac!(MMapTup), $mac!(MResTup), $mac!(MBndTup), $mac!(MOptTup), $mac!(MVecBnd), $mac!(MDqBnd), $mac!(MLlBnd), $mac!(MArrBnd), $mac!(MBoxBnd), $mac!(MTupBnd), $mac!(MMapBnd), $mac!(MResBnd), $mac!(MBndBnd), $mac!(MOptBnd), $mac!(MVecIp), $mac!(MDqIp), $mac!(MLlIp), $mac!(MArrIp), $mac!(MBoxIp), $mac!(MTupIp), $mac!(MMapIp), $mac!(MResIp), $mac!(MBndIp), $mac!(MOptIp), $mac!(MVecBool), $mac!(MDqBool), $mac!(MLlBool), $mac!(MArrBool), $mac!(MBoxBool), $mac!(MTupBool), $mac!(MMapBool), $mac!(MResBool), $mac!(MBndBool), $mac!(MOptBool),
+            $mac!(MRngTok), $mac!(MRngOptU8), $mac!(MRngBoxOpt), $mac!(MRngCellOpt), $mac!(MRngUnit), $mac!(MRngBv), $mac!(MRngRs), $mac!(MRngF), $mac!(MRngVec), $mac!(MRngTgd), $mac!(MVecBo), $mac!(MDqBo), $mac!(MLlBo), $mac!(MArrBo), $mac!(MBoxBo), $mac!(MTupBo), $mac!(MMapBo), $mac!(MResBo), $mac!(MBndBo), $mac!(EBoxOptU8), $mac!(ECellOptU8), $mac!(MVecTok), $mac!(MDqTok), $mac!(MLlTok), $mac!(MArrTok), $mac!(MBoxTok), $mac!(MTupTok), $mac!(MMapTok), $mac!(MResTok), $mac!(MBndTok), $mac!(MVecOptU8), $mac!(MDqOptU8), $mac!(MLlOptU8), $mac!(MArrOptU8), $mac!(MBoxOptU8), $mac!(MTupOptU8), $mac!(MMapOptU8), $mac!(MResOptU8), $mac!(MBndOptU8), $mac!(MVecUnit2), $mac!(MDqUnit2), $mac!(MLlUnit2), $mac!(MArrUnit), $mac!(MBoxUnit), $mac!(MTupUnit), $mac!(MMapUnit), $mac!(MResUnit), $mac!(MBndUnit), $mac!(MOptUnit), $mac!(MVecTag), $mac!(MDqTag), $mac!(MLlTag), $mac!(MArrTag), $mac!(MBoxTag), $mac!(MTupTag), $mac!(MMapTag), $mac!(MResTag), $mac!(MBndTag), $mac!(MOptTag), $mac!(MVecTgd), $mac!(MDqTgd), $mac!(MLlTgd), $mac!(MArrTgd), $mac!(MBoxTgd), $mac!(MTupTgd), $mac!(MMapTgd), $mac!(MResTgd), $mac!(MBndTgd), $mac!(MOptTgd), $mac!(MVecBv), $mac!(MDqBv), $mac!(MLlBv), $mac!(MArrBv), $mac!(MBoxBv), $mac!(MTupBv), $mac!(MMapBv), $mac!(MResBv), $mac!(MBndBv), $mac!(MOptBv), $mac!(MVecBs), $mac!(MDqBs), $mac!(MLlBs), $mac!(MArrBs), $mac!(MBoxBs), $mac!(MTupBs), $mac!(MMapBs), $mac!(MResBs), $mac!(MBndBs), $mac!(MOptBs), $mac!(MVecRs), $mac!(MDqRs), $mac!(MLlRs), $mac!(MArrRs), $mac!(MBoxRs), $mac!(MTupRs), $mac!(MMapRs), $mac!(MResRs), $mac!(MBndRs), $mac!(MVecCow), $mac!(MDqCow), $mac!(MLlCow), $mac!(MArrCow), $mac!(MBoxCow), $mac!(MTupCow), $mac!(MMapCow), $mac!(MResCow), $mac!(MBndCow), $mac!(MOptCow), $mac!(MVecF), $mac!(MDqF), $mac!(MLlF), $mac!(MArrF), $mac!(MBoxF), $mac!(MTupF), $mac!(MMapF), $mac!(MResF), $mac!(MBndF), $mac!(MOptF), $mac!(MVecInt), $mac!(MDqInt), $mac!(MLlInt), $mac!(MArrInt), $mac!(MBoxInt), $mac!(MTupInt), $mac!(MMapInt), $mac!(MResInt), $mac!(MBndInt), $mac!(MOptInt), $mac!(MVecVec), $mac!(MDqVec), $mac!(MLlVec), $mac!(MArrVec), $mac!(MBoxVec), $mac!(MTupVec), $mac!(MMapVec), $mac!(MResVec), $mac!(MBndVec), $mac!(MOptVec), $mac!(MVecTup), $mac!(MDqTup), $mac!(MLlTup), $mac!(MArrTup), $mac!(MBoxTup), $mac!(MTupTup), $mac!(MMapTup), $mac!(MResTup), $mac!(MBndTup), $mac!(MOptTup), $mac!(MVecBnd), $mac!(MDqBnd), $mac!(MLlBnd), $mac!(MArrBnd), $mac!(MBoxBnd), $mac!(MTupBnd), $mac!(MMapBnd), $mac!(MResBnd), $mac!(MBndBnd), $mac!(MOptBnd), $mac!(MVecIp), $mac!(MDqIp), $mac!(MLlIp), $mac!(MArrIp), $mac!(MBoxIp), $mac!(MTupIp), $mac!(MMapIp), $mac!(MResIp), $mac!(MBndIp), $mac!(MOptIp), $mac!(MVecBool), $mac!(MDqBool), $mac!(MLlBool), $mac!(MArrBool), $mac!(MBoxBool), $mac!(MTupBool), $mac!(MMapBool), $mac!(MResBool), $mac!(MBndBool), $mac!(MOptBool),
         ]
     }}
 }
